@@ -214,6 +214,15 @@ var vAny = &valAd[tlb.Any]{
 	},
 }
 
+// True / Unit: a value of no bits and no references (set-like dictionaries: `Hashmap 32 True`, LibDescr publishers,
+// suspended_address_list). Every leaf below a fork looks the same then, so sibling sub-trees are equal cells.
+var vUnit = &valAd[struct{}]{
+	name: "Unit",
+	gen:  func(r *mon.Rng, room int) dict.Value { return dict.Value{} },
+	mk:   func(a dict.Value) struct{} { return struct{}{} },
+	abs:  func(v struct{}) dict.Value { return dict.Value{} },
+}
+
 func sameValue(a, b dict.Value) bool {
 	if !rbits.Equal(a.Bits, b.Bits) || len(a.Refs) != len(b.Refs) {
 		return false
@@ -352,6 +361,16 @@ type dictOps struct {
 	reuse func(keys [][]bool, vals []dict.Value) (entries []dict.Entry, got []dict.Value, found []bool, h1, h2 string, err error)
 	// decodeOver: decode cell a and then cell b into one and the same variable
 	decodeOver func(a, b *tboc.Cell) ([]dict.Entry, error)
+	// ---- plain (non-E) dictionaries written in line, see inline.go
+	// Unmarshal a plain Hashmap at the cell's current bit/reference cursors: Keys()/Values() zipped, Items(), a lookup
+	decodeHmAt func(tc *tboc.Cell) (kv, items []dict.Entry, get func([]bool) (dict.Value, bool), err error)
+	// tlb.Marshal(NewHashmap(keys, vals)) into tc, in line, after whatever tc holds already
+	marshalHm func(tc *tboc.Cell, keys [][]bool, vals []dict.Value) error
+	// decode cell a and then cell b into one and the same plain Hashmap variable
+	decodeHmOver func(a, b *tboc.Cell) ([]dict.Entry, error)
+	// HashmapAug[K, V, uint32] at the cursors / a then b into one variable: Values()
+	decodeAugAt   func(tc *tboc.Cell) ([]dict.Value, error)
+	decodeAugOver func(a, b *tboc.Cell) ([]dict.Value, error)
 }
 
 func mkOps[K keyC, V any](kname string, va *valAd[V]) *dictOps {
@@ -444,6 +463,39 @@ func mkOps[K keyC, V any](kname string, va *valAd[V]) *dictOps {
 			h2, err = hashOf(c2)
 			return
 		},
+		decodeHmAt: func(tc *tboc.Cell) ([]dict.Entry, []dict.Entry, func([]bool) (dict.Value, bool), error) {
+			h := new(tlb.Hashmap[K, V])
+			if err := tlb.Unmarshal(tc, h); err != nil {
+				return nil, nil, nil, err
+			}
+			items := h.Items()
+			ks, vs := make([]K, len(items)), make([]V, len(items))
+			for i, it := range items {
+				ks[i], vs[i] = it.Key, it.Value
+			}
+			get := func(key []bool) (dict.Value, bool) {
+				v, ok := h.Get(keyOf[K](key))
+				if !ok {
+					return dict.Value{}, false
+				}
+				return va.abs(v), true
+			}
+			return itemsOf(va, h.Keys(), h.Values()), itemsOf(va, ks, vs), get, nil
+		},
+		marshalHm: func(tc *tboc.Cell, keys [][]bool, vals []dict.Value) error {
+			ks, vs := conv(keys, vals)
+			return tlb.Marshal(tc, tlb.NewHashmap(ks, vs))
+		},
+		decodeHmOver: func(a, b *tboc.Cell) ([]dict.Entry, error) {
+			var h tlb.Hashmap[K, V]
+			if err := tlb.Unmarshal(a, &h); err != nil {
+				return nil, err
+			}
+			if err := tlb.Unmarshal(b, &h); err != nil {
+				return nil, err
+			}
+			return itemsOf(va, h.Keys(), h.Values()), nil
+		},
 		decodeOver: func(a, b *tboc.Cell) ([]dict.Entry, error) {
 			d := new(tlb.HashmapE[K, V])
 			if err := tlb.Unmarshal(a, d); err != nil {
@@ -502,12 +554,22 @@ func runCase(o *dictOps, idx int, shape string) {
 	inner := dict.GenKeys(r, dom.inner, shape, large)
 	model := &modelT{n: n, m: map[string]dict.Value{}}
 	var order []string
+	// one case in six: all keys carry the same value (a set, a default-filled table); mirrored sub-trees are equal cells then
+	equalVals := r.Chance(1, 6)
+	shared := o.gen(r, maxVal)
 	for _, ik := range inner {
 		k := dict.KeyString(dom.expand(ik))
-		model.m[k] = o.gen(r, maxVal)
+		if equalVals {
+			model.m[k] = shared
+		} else {
+			model.m[k] = o.gen(r, maxVal)
+		}
 		order = append(order, k)
 	}
 	sz := len(order)
+	if equalVals && sz > 1 {
+		R.Count("dictionaries_with_equal_values", 1)
+	}
 	R.Seen("key_types", kname)
 	R.Seen("value_types", o.vname)
 	R.Seen("shapes", shape)
@@ -592,6 +654,26 @@ func runCase(o *dictOps, idx int, shape string) {
 			R.Violation(c.sig("order-dependent-encoding@NewHashmapE-vs-Put"), c.wit(model, map[string]any{"hash_put": mon.Hex([]byte(firstHash)), "hash_new": mon.Hex([]byte(h))}))
 			return
 		}
+		// the same pairs handed to NewHashmapE in an arbitrary order
+		if sz > 1 {
+			perm := r.Perm(sz)
+			for i, j := range perm {
+				keys[i], vals[i] = es[j].Key, es[j].Val
+			}
+			err, ok := guarded(c, model, "NewHashmapE(unsorted)+Marshal", func() (e error) { out, e = o.buildNew(keys, vals); return })
+			if !ok {
+				return
+			}
+			R.Count("new_hashmape_unsorted", 1)
+			if err != nil {
+				R.Violation(c.sig("error@Marshal(NewHashmapE, keys in arbitrary order)"), c.wit(model, map[string]any{"err": err.Error(), "order": showKeys(keys)}))
+				return
+			}
+			if h, _ := hashOf(out); h != firstHash {
+				R.Violation(c.sig("order-dependent-encoding@NewHashmapE(unsorted keys)"), c.wit(model, map[string]any{"order": showKeys(keys), "hash_put": mon.Hex([]byte(firstHash)), "hash_new": mon.Hex([]byte(h))}))
+				return
+			}
+		}
 	}
 
 	// ---- (iii) the reference reader on tongo's output
@@ -619,6 +701,26 @@ func runCase(o *dictOps, idx int, shape string) {
 	dec, ok := decodeAndCompare(c, model, first, "own-encoding", fp)
 	if !ok {
 		return
+	}
+	// the same cell tree after a trip through the wire format (equal cells exist once in a parsed bag)
+	if sz > 1 && (equalVals || r.Chance(1, 4)) {
+		var cs []*tboc.Cell
+		if p := mon.Guard(func() {
+			if b, err := first.ToBoc(); err == nil {
+				cs, _ = tboc.DeserializeBoc(b)
+			}
+		}); p != nil || len(cs) != 1 {
+			R.Count("own_encoding_via_boc_unavailable", 1) // the BOC codec is C01's subject
+		} else {
+			R.Count("own_encoding_via_boc", 1)
+			if _, ok := decodeAndCompare(c, model, cs[0], "own-encoding-via-boc", fp); !ok {
+				return
+			}
+			if !countLeaves(c, model, cs[0], "own-encoding-via-boc", fp) {
+				return
+			}
+		}
+		first.ResetCounters()
 	}
 	// plain Hashmap n X from the root cell
 	if sz > 0 && len(first.Refs()) == 1 {
@@ -700,6 +802,26 @@ func runCase(o *dictOps, idx int, shape string) {
 				return
 			}
 			first.ResetCounters()
+			// the same with a plain Hashmap variable
+			if len(other.Refs()) == 1 && len(first.Refs()) == 1 && o.decodeHmOver != nil {
+				ra, rb := other.Refs()[0], first.Refs()[0]
+				ra.ResetCounters()
+				rb.ResetCounters()
+				err, ok := guarded(c, model, "Unmarshal(Hashmap over another dictionary)", func() (e error) { over, e = o.decodeHmOver(ra, rb); return })
+				if !ok {
+					return
+				}
+				R.Eval(prefixFP("viii-hm", fp))
+				if err != nil {
+					R.Violation(c.sig("error@Unmarshal(Hashmap into used variable)"), c.wit(model, map[string]any{"err": err.Error()}))
+					return
+				}
+				if d := diffEntries(over, model); d != "" {
+					R.Violation(c.sig("decode-mismatch@into-used-variable(Hashmap)"), c.wit(model, map[string]any{"diff": d, "note": "the plain Hashmap variable held another dictionary before"}))
+					return
+				}
+				first.ResetCounters()
+			}
 		}
 	}
 
@@ -735,7 +857,7 @@ func runCase(o *dictOps, idx int, shape string) {
 		R.Count("foreign_labels_same", int64(forms[dict.Same]))
 		var tc *tboc.Cell
 		via := "built"
-		if fr.Bool() {
+		if fr.Bool() && !(equalVals && vi%2 == 0) {
 			tc, err = bridge.ToTongoBuilt(holder)
 		} else {
 			via = "boc"
@@ -757,6 +879,9 @@ func runCase(o *dictOps, idx int, shape string) {
 		if variant == "mixed" {
 			foreignDec = fd
 		}
+		if !countLeaves(c, model, tc, "foreign:"+variant, fp) {
+			return
+		}
 	}
 
 	// ---- (v) Get and Put on decoded dictionaries, then re-encode
@@ -771,6 +896,10 @@ func runCase(o *dictOps, idx int, shape string) {
 
 	// ---- (vi) decode-only: HashmapAugE with extras written by the reference
 	if !augmented(c, model, r, fp) {
+		return
+	}
+	// ---- (ix)-(xi) plain Hashmap / HashmapAug in line, between the fields of an enclosing cell
+	if !inlineDicts(c, model, r.Fork("inline-dicts", 0), fp) {
 		return
 	}
 	if idx < 3*len(registry) && sz > 1 && sz < 6 && idx%97 == 0 {
@@ -825,6 +954,18 @@ func allPerms(n int) [][]int {
 		}
 	}
 	rec(identity(n), 0)
+	return out
+}
+
+func showKeys(keys [][]bool) []string {
+	var out []string
+	for i, k := range keys {
+		if i >= 16 {
+			out = append(out, "...")
+			break
+		}
+		out = append(out, rbits.FiftHex(k))
+	}
 	return out
 }
 
@@ -1084,7 +1225,7 @@ func augmented(c *ctx, model *modelT, r *mon.Rng, fp string) bool {
 		R.Violation(c.sig("decode-mismatch@HashmapAugE/root-extra-not-consumed"), c.wit(model, map[string]any{"bits_left": tc.BitsAvailableForRead()}))
 		return false
 	}
-	return true
+	return countLeaves(c, model, tc, "HashmapAugE:"+variant, fp)
 }
 
 // ------------------------------------------------------------------ registry and driver
@@ -1107,6 +1248,30 @@ func regA[K keyC, V any](kname string, va *valAd[V]) {
 		}
 		return itemsOf(va, h.Keys(), h.Values()), nil
 	}
+	absAll := func(vs []V) []dict.Value {
+		out := make([]dict.Value, len(vs))
+		for i := range vs {
+			out[i] = va.abs(vs[i])
+		}
+		return out
+	}
+	registry[len(registry)-1].ops.decodeAugAt = func(tc *tboc.Cell) ([]dict.Value, error) {
+		var h tlb.HashmapAug[K, V, uint32]
+		if err := tlb.Unmarshal(tc, &h); err != nil {
+			return nil, err
+		}
+		return absAll(h.Values()), nil
+	}
+	registry[len(registry)-1].ops.decodeAugOver = func(a, b *tboc.Cell) ([]dict.Value, error) {
+		var h tlb.HashmapAug[K, V, uint32]
+		if err := tlb.Unmarshal(a, &h); err != nil {
+			return nil, err
+		}
+		if err := tlb.Unmarshal(b, &h); err != nil {
+			return nil, err
+		}
+		return absAll(h.Values()), nil
+	}
 }
 
 func reg[K keyC, V any](kname string, va *valAd[V]) {
@@ -1123,7 +1288,7 @@ func main() {
 		tier = os.Args[1]
 	}
 	R = mon.Start("C05", tier)
-	R.Rule = "one case = one (key type, value type, key-set shape) dictionary: the Go-map model is built first; tongo builds it by Put in all/20 insertion orders and by NewHashmapE (root hashes must coincide), the reference reader (ref/dict) reads tongo's cell tree and must return the model, tongo decodes its own output and 6 reference-written variants (canonical, forced short/long/same labels, two random mixes; delivered in memory or through a BOC) and must list the model in ascending key-bit order; Get for all present (<=300) and 50 absent keys; Put updates/inserts on a decoded dictionary, re-encoded and read back by the reference; HashmapAugE written by the reference decoded by tongo. evaluations = comparisons made; non-trivial = non-empty dictionary; distinct = (sub-check, key type, value type, root hash of the encoding[, label-form mix | update script])"
+	R.Rule = "one case = one (key type, value type, key-set shape) dictionary: the Go-map model is built first; tongo builds it by Put in all/20 insertion orders and by NewHashmapE (root hashes must coincide), the reference reader (ref/dict) reads tongo's cell tree and must return the model, tongo decodes its own output and 6 reference-written variants (canonical, forced short/long/same labels, two random mixes; delivered in memory or through a BOC) and must list the model in ascending key-bit order; Get for all present (<=300) and 50 absent keys; Put updates/inserts on a decoded dictionary, re-encoded and read back by the reference; HashmapAugE written by the reference decoded by tongo. One case in six gives all keys the same value (plus value type Unit = no bits at all), decoded also after a trip through a BOC (equal sibling sub-trees are one cell there). NewHashmapE also from keys in arbitrary order. Plain Hashmap / HashmapAug IN LINE: the reference-written root (all label forms) spliced between random bits and 0..2 references of neighbouring fields, tongo reads the leading fields, the dictionary at the cursor, then the trailing fields; tongo's Marshal(NewHashmap) in line read by the reference; tlb.LibDescr alone and inside HashmapE 256 LibDescr; decoding into a used plain Hashmap / HashmapAug variable; BlockExtra.InMsgDescrLength/OutMsgDescrLength (second label parser) = number of entries for 256-bit keys. evaluations = comparisons made; non-trivial = non-empty dictionary; distinct = (sub-check, key type, value type, root hash of the encoding[, label-form mix | update script])"
 	R.Assume("reference dictionary reader/writer harness/ref/dict is correct: pinned at start-up by reading every dictionary of the repository's real blocks/config proofs (keys repeat inside their values) and by re-writing them to the same root hash")
 	R.Assume("AddressWithWorkchain keys are drawn with workchains that fit the type's int8 field (sign-extended to the 32-bit key field)")
 	R.Assume("Grams values stay below 2^63 (larger amounts are property C03's subject)")
@@ -1176,6 +1341,7 @@ func main() {
 	}
 	close(ch)
 	wg.Wait()
+	libDescrs()
 	var pairs []string
 	for _, p := range registry {
 		pairs = append(pairs, p.kname+"/"+p.vname)
